@@ -5,13 +5,17 @@ usage: mutants.py [name-substring ...]        results -> /verif/tools/mutants_re
 """
 import json, subprocess, sys, os, time
 
-R = '/repo/'
+import os as _os
+ALT = _os.environ.get('MUT_ALT') == '1'   # work in the scratch copy /tmp/mh (worktree + harness copy) instead of /repo
+R = '/tmp/mh/repo/' if ALT else '/repo/'
 M = [
  # (name, property, file, old, new)
  ("c01-kp-add-arm-removed", "C01", "src/keycodes.rs", "        VC_KP_ADD => '+',\n", ""),
  ("c01-reph-unwrap-again", "C01", "src/fixed/method.rs", "let right_most = buf_chars.next().unwrap_or_default();", "let right_most = buf_chars.next().unwrap();"),
  ("c01-commit-index-before-test", "C01", "src/phonetic/method.rs", "        if self.prev_selection != index && config.get_phonetic_suggestion() {", "        let _probe = self.suggestion.suggestions[index].to_string().len();\n        if self.prev_selection != index && config.get_phonetic_suggestion() {"),
  ("c01-suffix-slice-off-by-one", "C01", "src/phonetic/suggestion.rs", "let key = &string.word()[..len - test.len()];", "let key = &string.word()[..len - test.len() - usize::from(len > 11)];"),
+ ("c01-kp-add-arm-removed@C02", "C02", "src/keycodes.rs", "        VC_KP_ADD => '+',\n", ""),
+ ("c01-suffix-slice-off-by-one@C09", "C09", "src/phonetic/suggestion.rs", "let key = &string.word()[..len - test.len()];", "let key = &string.word()[..len - test.len() - usize::from(len > 11)];"),
  ("c02-aux-before-push", "C02", "src/phonetic/method.rs", "            Suggestion::new(\n                self.buffer.clone(),", "            Suggestion::new(\n                self.buffer[..self.buffer.len() - usize::from(self.buffer.len() > 6)].to_string(),"),
  ("c02-position-default-len", "C02", "src/phonetic/suggestion.rs", "            .position(|item| *item.to_string() == selected)\n            .unwrap_or_default()", "            .position(|item| *item.to_string() == selected)\n            .unwrap_or(if selected.len() > 30 { self.suggestions.len() } else { 0 })"),
  ("c03-include-colon-true", "C03", "src/phonetic/suggestion.rs", "        let string = SplittedString::split(term, false);\n\n        self.phonetic.convert_into(string.word(), &mut self.pbuffer);", "        let string = SplittedString::split(term, true);\n\n        self.phonetic.convert_into(string.word(), &mut self.pbuffer);"),
@@ -32,7 +36,7 @@ M = [
  ("c07-other-vs-emoji-flip", "C07", "src/suggestion.rs", "            (Rank::Other(_, s), Rank::Emoji(_, e)) => s.cmp(e),", "            (Rank::Other(_, s), Rank::Emoji(_, e)) => e.cmp(s),"),
  ("c08-loop-from-2", "C08", "src/phonetic/suggestion.rs", "            for i in 1..middle.len() {", "            for i in 2..middle.len() {"),
  ("c08-swap-khanda-anusvar", "C08", "src/phonetic/suggestion.rs", "                                'ৎ' => {\n                                    // Replace ৎ with ত\n                                    word.pop();\n                                    word.push('ত');", "                                'ৎ' => {\n                                    // Replace ৎ with ত\n                                    word.pop();\n                                    word.push('ঙ');"),
- ("c08-kar-instead-of-vowel", "C08", "src/phonetic/suggestion.rs", "                                ch if ch.is_vowel() && suffix_lmc.is_kar() => {\n                                    // Insert য় in between.\n                                    word.push('য়');", "                                ch if ch.is_kar() && suffix_lmc.is_kar() => {\n                                    // Insert য় in between.\n                                    word.push('য়');"),
+ ("c08-kar-instead-of-vowel", "C08", "src/phonetic/suggestion.rs", "                            match base_rmc {\n                                ch if ch.is_vowel() && suffix_lmc.is_kar() => {", "                            match base_rmc {\n                                ch if ch.is_kar() && suffix_lmc.is_kar() => {"),
  ("c08-len-gt-3", "C08", "src/phonetic/suggestion.rs", "        if middle.len() > 2 {", "        if middle.len() > 3 {"),
  ("c09-store-under-colon-split", "C09", "src/phonetic/method.rs", "                SplittedString::split(&self.buffer, false)\n                    .word()\n                    .to_string(),", "                SplittedString::split(&self.buffer, true)\n                    .word()\n                    .to_string(),"),
  ("c09-skip-write-when-many", "C09", "src/phonetic/method.rs", "            write(\n                config.get_user_phonetic_selection_data(),", "            if self.selections.len() < 3 { return self.buffer.clear(); }\n            write(\n                config.get_user_phonetic_selection_data(),"),
@@ -73,8 +77,12 @@ def sh(cmd, timeout=1800):
 def main():
     sel = sys.argv[1:]
     out_path = '/verif/tools/mutants_result.json'
+    if _os.environ.get('MUT_OUT'):
+        out_path = _os.environ['MUT_OUT']
     results = json.load(open(out_path)) if os.path.exists(out_path) else {}
-    assert sh('git -C /repo status --porcelain')[1].strip() == '', 'repo not clean'
+    assert sh(f'git -C {R} status --porcelain')[1].strip() == '', 'repo not clean'
+    if ALT:
+        sh('rsync -a --exclude target --exclude Cargo.toml /verif/harness/ /tmp/mh/harness/')
     for name, prop, f, old, new in M:
         if sel and not any(s in name for s in sel):
             continue
@@ -83,16 +91,19 @@ def main():
             print(f'{name}: APPLY FAILED (count {src.count(old)})'); results[name] = {'property': prop, 'applied': False}; continue
         try:
             open(R + f, 'w', encoding='utf-8').write(src.replace(old, new))
-            rc, o = sh('cd /repo && cargo test --workspace --no-fail-fast --offline 2>&1 | grep -E "^test result: .* passed|^error" | head -1')
+            rc, o = sh(f'cd {R} && cargo test --workspace --no-fail-fast --offline 2>&1 | grep -E "^test result: .* passed|^error" | head -1')
             tests = o.strip()
             t0 = time.time()
-            rc, o = sh(f'cd /verif && ./check {prop} quick')
+            if ALT:
+                rc, o = sh(f'cd /tmp/mh/harness && cargo build --release --offline >/dev/null 2>&1; VERIF_REPO=/tmp/mh/repo VERIF_OUT_DIR=/tmp/mh/out ./target/release/verif {prop} --tier quick')
+            else:
+                rc, o = sh(f'cd /verif && ./check {prop} quick')
             lines = [l for l in o.splitlines() if l.startswith('  failure') or l.startswith('VIOLATION') or 'INCONCLUSIVE' in l]
             results[name] = {'property': prop, 'applied': True, 'tests': tests, 'check_exit': rc, 'wall_s': round(time.time() - t0, 1), 'first': (lines[0][:300] if lines else '')}
             print(f"{name}: tests[{tests[13:40]}] check exit={rc} {results[name]['first'][:160]}")
         finally:
-            sh('git -C /repo checkout -- .')
+            sh(f'git -C {R} checkout -- .')
         json.dump(results, open(out_path, 'w'), indent=1, ensure_ascii=False)
-    sh('git -C /repo checkout -- .')
+    sh(f'git -C {R} checkout -- .')
 
 main()
